@@ -57,7 +57,11 @@ func init() {
 					// very long passwords with a requirement (counts with exponents beyond 2^15)
 					cc = CharCfg{Length: pick(r, []int{32767, 32768, 33000, 40000}), Allow: 7, RequireSets: []string{pick(r, []string{"#", "ab", "7"})}}
 				}
-				if r.Chance(0.006) {
+				manyReq := 0.006
+				if tier == "thorough" {
+					manyReq = 0.001 // each call costs seconds: about as many such episodes as in the quick tier
+				}
+				if r.Chance(manyReq) {
 					cc = genManyReqCfg(r)
 				}
 				if r.Chance(0.1) {
